@@ -14,6 +14,13 @@
   __init__           -> `symmOptions`: option name -> helper (the `symmetrization_options` dict)
   event_series_analysis -> the symmetrisations / windows accepted per method, the workers
       called, that the worker's array is handed to the chosen helper and its result returned
+  make_event_matrix (round 4) -> dtype of the arrays `thresholds` / `eventmatrix` (the `dtype`
+      keyword of their one allocation, float64 if absent), the right-hand sides stored into
+      `thresholds[i]`, the marking comparisons
+  the installed NumPy's numpy/lib/_function_base_impl.py (round 4) -> the expressions of the
+      'linear' quantile method (`get_virtual_index`, `fix_gamma`, `_compute_virtual_index`,
+      `_get_gamma`, `_get_indexes`, `_lerp`), the default method, the wiring of `_quantile`,
+      the slices of `_median`
   _ndim_event_synchronization / _ndim_event_coincidence_analysis
       -> decorators (memoised or not), loop bounds (as Lean functions), the two stores per
          iteration, the columns and time stamps passed to the pair function
@@ -257,6 +264,261 @@ def ndim(fn, pairfn):
                 cached=cached)
 
 
+
+# ---------------------------------------------------------------------------------------------
+# round 4: make_event_matrix (dtype of the threshold array, what is stored into it) and the
+# expressions of NumPy's own quantile / median code (the installed NumPy, not the repository)
+# ---------------------------------------------------------------------------------------------
+
+def rat_expr(n, env):
+    """a NumPy scalar expression -> Lean `Rat` expression; names through `env`"""
+    if isinstance(n, ast.Name):
+        need(n.id in env, f"free name {n.id}")
+        return env[n.id]
+    if isinstance(n, ast.Constant) and isinstance(n.value, (int, float)) and \
+            not isinstance(n.value, bool):
+        from fractions import Fraction
+        f = Fraction(n.value)
+        return f"({f.numerator} : Rat)" if f.denominator == 1 else \
+            f"(({f.numerator} : Rat) / {f.denominator})"
+    if isinstance(n, ast.UnaryOp) and isinstance(n.op, ast.USub):
+        return f"(-{rat_expr(n.operand, env)})"
+    if isinstance(n, ast.BinOp) and isinstance(n.op, (ast.Add, ast.Sub, ast.Mult)):
+        op = {ast.Add: "+", ast.Sub: "-", ast.Mult: "*"}[type(n.op)]
+        return f"({rat_expr(n.left, env)} {op} {rat_expr(n.right, env)})"
+    if isinstance(n, ast.Call) and u(n.func) in ("add", "subtract") and len(n.args) == 2:
+        op = "+" if u(n.func) == "add" else "-"
+        return f"({rat_expr(n.args[0], env)} {op} {rat_expr(n.args[1], env)})"
+    raise Shape(f"expression {u(n)}")
+
+
+def cmp_expr(n, env):
+    need(isinstance(n, ast.Compare) and len(n.ops) == 1, f"comparison {u(n)}")
+    op = {ast.GtE: "≥", ast.Lt: "<", ast.LtE: "≤", ast.Gt: ">"}.get(type(n.ops[0]))
+    need(op is not None, f"comparison {u(n)}")
+    return f"decide ({rat_expr(n.left, env)} {op} {rat_expr(n.comparators[0], env)})"
+
+
+def int_const(n):
+    v = ast.literal_eval(n)
+    need(isinstance(v, int), f"integer constant {u(n)}")
+    return f"({v} : Int)"
+
+
+def top_func(mod, name):
+    for n in mod.body:
+        if isinstance(n, ast.FunctionDef) and n.name == name:
+            return n
+    raise Shape(f"numpy: function {name} not found")
+
+
+def assigns(fn, name):
+    return [s for s in stmts_in_order(fn) if isinstance(s, ast.Assign) and
+            len(s.targets) == 1 and u(s.targets[0]) == name]
+
+
+def gen_thresholding(cls, out):
+    fn = find_func(cls, "make_event_matrix")
+    need(any(u(d) == "staticmethod" for d in fn.decorator_list), "make_event_matrix static")
+
+    def alloc(name):
+        a = assigns(fn, name)
+        need(len(a) == 1, f"make_event_matrix: one allocation of {name}")
+        v = a[0].value
+        # `np.zeros(shape)` possibly times a constant; the dtype keyword decides the dtype
+        calls = [c for c in ast.walk(v) if isinstance(c, ast.Call)]
+        z = [c for c in calls if u(c.func) in ("np.zeros", "np.empty", "np.ones", "np.full",
+                                               "np.zeros_like", "np.empty_like")]
+        need(len(z) == 1 and len(calls) == 1, f"allocation {u(v)}")
+        need(u(z[0].func) == "np.zeros", f"allocation {u(v)}")
+        kws = {k.arg: u(k.value) for k in z[0].keywords}
+        need(set(kws) <= {"dtype"} and len(z[0].args) == 1, f"allocation {u(v)}")
+        dt = kws.get("dtype", "float64")
+        dt = {"float": "float64", "np.float64": "float64", "'float64'": "float64",
+              "'float'": "float64"}.get(dt, dt)
+        return a[0].lineno, dt, u(z[0].args[0])
+    l1, dt1, sh1 = alloc("thresholds")
+    l2, dt2, sh2 = alloc("eventmatrix")
+    out.append(f"/-- event_series.py:{l1}: dtype / shape of the array `thresholds` -/")
+    out.append(f'def thresholdsDType : String := "{dt1}"')
+    out.append(f'def thresholdsShape : String := "{sh1}"')
+    out.append(f"/-- event_series.py:{l2}: dtype of the array `eventmatrix` -/")
+    out.append(f'def eventmatrixDType : String := "{dt2}"')
+    # everything stored into `thresholds`, in source order; nothing else rebinds or edits it
+    stores = []
+    for st in stmts_in_order(fn):
+        if isinstance(st, ast.AugAssign):
+            need("thresholds" != u(st.target).split("[")[0], f"augmented store {u(st)}")
+        if isinstance(st, ast.Assign):
+            for t in st.targets:
+                if isinstance(t, ast.Subscript) and u(t.value) == "thresholds":
+                    need(u(t.slice) == "i", f"store index {u(t)}")
+                    stores.append(u(st.value))
+    for n in ast.walk(fn):
+        if isinstance(n, ast.Call):
+            need(not any(k.arg == "out" and "thresholds" in u(k.value) for k in n.keywords),
+                 f"out=thresholds in {u(n)}")
+            if isinstance(n.func, ast.Attribute) and u(n.func.value) == "thresholds":
+                raise Shape(f"method call on thresholds: {u(n)}")
+    out.append("/-- right-hand sides of `thresholds[i] = …`, in source order -/")
+    out.append(f"def thresholdStores : List String := {lean_str_list(stores)}")
+    # the comparisons of the final double loop
+    cmps = []
+    for st in stmts_in_order(fn):
+        if isinstance(st, ast.If) and isinstance(st.test, ast.Compare) and \
+                u(st.test.left) == "data[t][i]":
+            need(u(st.test.comparators[0]) == "thresholds[i]" and len(st.body) == 1 and
+                 len(st.orelse) == 1, f"marking statement {u(st.test)}")
+            cmps.append((type(st.test.ops[0]).__name__, u(st.body[0]), u(st.orelse[0])))
+    out.append("/-- the marking comparisons `data[t][i] <op> thresholds[i]`: operator, then / else -/")
+    out.append("def markStatements : List (String × String × String) := ["
+               + ", ".join('("%s", "%s", "%s")' % c for c in cmps) + "]")
+    out.append("")
+
+
+def gen_numpy(out):
+    import numpy
+    path = os.path.join(os.path.dirname(numpy.__file__), "lib", "_function_base_impl.py")
+    need(os.path.exists(path), f"numpy source {path}")
+    mod = ast.parse(open(path).read())
+    out.append(f"/-! NumPy {numpy.__version__}: numpy/lib/_function_base_impl.py -/")
+    # the method table
+    tab = [s for s in mod.body if isinstance(s, ast.Assign) and
+           u(s.targets[0]) == "_QuantileMethods"]
+    need(len(tab) == 1 and isinstance(tab[0].value, ast.Dict), "_QuantileMethods literal")
+    lin = [v for k, v in zip(tab[0].value.keys, tab[0].value.values)
+           if isinstance(k, ast.Constant) and k.value == "linear"]
+    need(len(lin) == 1 and isinstance(lin[0], ast.Dict), "_QuantileMethods['linear']")
+    ent = {k.value: v for k, v in zip(lin[0].keys, lin[0].values)}
+    need(set(ent) == {"get_virtual_index", "fix_gamma"} and
+         all(isinstance(v, ast.Lambda) for v in ent.values()), "entries of the linear method")
+    gv, fg = ent["get_virtual_index"], ent["fix_gamma"]
+    need([a.arg for a in gv.args.args] == ["n", "quantiles"], "get_virtual_index parameters")
+    need(len(fg.args.args) == 2, "fix_gamma parameters")
+    out.append("/-- `_QuantileMethods['linear']['get_virtual_index']` -/")
+    out.append("def npVirtualIndex (n quantiles : Rat) : Rat := "
+               + rat_expr(gv.body, {"n": "n", "quantiles": "quantiles"}))
+    out.append("/-- `_QuantileMethods['linear']['fix_gamma']` -/")
+    out.append("def npFixGamma (gamma : Rat) : Rat := "
+               + rat_expr(fg.body, {fg.args.args[0].arg: "gamma"}))
+    # the default method of the public functions
+    for pub in ("quantile", "_quantile"):
+        fn = top_func(mod, pub)
+        names = [a.arg for a in fn.args.args]
+        need("method" in names, f"{pub}: parameter method")
+        d = fn.args.defaults[names.index("method") - (len(names) - len(fn.args.defaults))]
+        need(isinstance(d, ast.Constant), f"{pub}: default method")
+        out.append(f'def np{pub.strip("_").capitalize()}{"Inner" if pub[0] == "_" else ""}'
+                   f'DefaultMethod : String := "{d.value}"')
+    # Hyndman & Fan parametrisation
+    fn = top_func(mod, "_compute_virtual_index")
+    need([a.arg for a in fn.args.args] == ["n", "quantiles", "alpha", "beta"],
+         "_compute_virtual_index parameters")
+    ret = [s for s in fn.body if isinstance(s, ast.Return)]
+    need(len(ret) == 1, "_compute_virtual_index return")
+    out.append("/-- `_compute_virtual_index` (Hyndman & Fan's `alpha`, `beta`) -/")
+    out.append("def npComputeVirtualIndex (n quantiles alpha beta : Rat) : Rat := "
+               + rat_expr(ret[0].value, {k: k for k in ("n", "quantiles", "alpha", "beta")}))
+    # _get_gamma
+    fn = top_func(mod, "_get_gamma")
+    g = assigns(fn, "gamma")
+    rt = [s_ for s_ in fn.body if isinstance(s_, ast.Return)]
+    need(len(g) == 2 and u(g[0].value.func) == "np.asanyarray" and
+         u(g[1].value) == "method['fix_gamma'](gamma, virtual_indexes)" and
+         len(rt) == 1 and u(rt[0].value.func) == "np.asanyarray" and
+         u(rt[0].value.args[0]) == "gamma", "_get_gamma statements")
+    out.append("/-- `_get_gamma` before `fix_gamma` -/")
+    out.append("def npGamma (virtual_indexes previous_indexes : Rat) : Rat := "
+               + rat_expr(g[0].value.args[0], {"virtual_indexes": "virtual_indexes",
+                                               "previous_indexes": "previous_indexes"}))
+    # _get_indexes
+    fn = top_func(mod, "_get_indexes")
+    need([a.arg for a in fn.args.args] == ["arr", "virtual_indexes", "valid_values_count"],
+         "_get_indexes parameters")
+    pv = assigns(fn, "previous_indexes")
+    nx = assigns(fn, "next_indexes")
+    need(u(pv[0].value.func) == "floor" and u(pv[0].value.args[0]) == "virtual_indexes",
+         "previous_indexes = floor(virtual_indexes)")
+    need(u(nx[0].value.func) == "add" and u(nx[0].value.args[0]) == "previous_indexes",
+         "next_indexes = add(previous_indexes, 1)")
+    out.append("/-- `_get_indexes`: the neighbouring indexes and their two clippings, in source order -/")
+    out.append("def npNext (previous_indexes : Int) : Int := previous_indexes + "
+               + int_const(nx[0].value.args[1]))
+    ab = assigns(fn, "indexes_above_bounds")
+    bl = assigns(fn, "indexes_below_bounds")
+    need(len(ab) == 1 and len(bl) == 1 and ab[0].lineno < bl[0].lineno,
+         "_get_indexes: above-bounds test before below-bounds test")
+    env = {"virtual_indexes": "virtual_indexes", "valid_values_count": "valid_values_count"}
+    out.append("def npAbove (virtual_indexes valid_values_count : Rat) : Bool := "
+               + cmp_expr(ab[0].value, env))
+    out.append("def npBelow (virtual_indexes : Rat) : Bool := " + cmp_expr(bl[0].value, env))
+    ifs = [s for s in fn.body if isinstance(s, ast.If)]
+    need(len(ifs) == 3 and u(ifs[0].test) == "indexes_above_bounds.any()" and
+         u(ifs[1].test) == "indexes_below_bounds.any()", "_get_indexes: the clipping blocks")
+    for blk, mask, nm in ((ifs[0], "indexes_above_bounds", "Above"),
+                          (ifs[1], "indexes_below_bounds", "Below")):
+        got = {}
+        for st in blk.body:
+            need(isinstance(st, ast.Assign) and isinstance(st.targets[0], ast.Subscript) and
+                 u(st.targets[0].slice) == mask, f"_get_indexes: {u(st)}")
+            got[u(st.targets[0].value)] = int_const(st.value)
+        need(set(got) == {"previous_indexes", "next_indexes"}, f"_get_indexes: block {mask}")
+        out.append(f"def np{nm}Prev : Int := {got['previous_indexes']}")
+        out.append(f"def np{nm}Next : Int := {got['next_indexes']}")
+    # the third block only concerns NaN virtual indexes of inexact arrays
+    need("isnan" in u(ifs[2]), "_get_indexes: third block handles NaN")
+    # _lerp
+    fn = top_func(mod, "_lerp")
+    need([a.arg for a in fn.args.args][:3] == ["a", "b", "t"], "_lerp parameters")
+    df = assigns(fn, "diff_b_a")
+    li = assigns(fn, "lerp_interpolation")
+    need(len(df) == 1 and len(li) >= 1 and u(li[0].value.func) == "add", "_lerp statements")
+    env = {"a": "a", "b": "b", "t": "t", "diff_b_a": "diff_b_a"}
+    out.append("/-- `_lerp` -/")
+    out.append("def npLerpDiff (a b : Rat) : Rat := " + rat_expr(df[0].value, env))
+    out.append("def npLerpLo (a diff_b_a t : Rat) : Rat := ("
+               + rat_expr(li[0].value.args[0], env) + " + " + rat_expr(li[0].value.args[1], env) + ")")
+    sub = [s.value for s in fn.body if isinstance(s, ast.Expr) and isinstance(s.value, ast.Call)
+           and u(s.value.func) == "subtract"]
+    need(len(sub) == 1, "_lerp: one subtract(...)")
+    kws = {k.arg: k.value for k in sub[0].keywords}
+    need(u(kws.get("out")) == "lerp_interpolation" and "where" in kws, "_lerp: subtract(out=, where=)")
+    out.append("def npLerpHi (b diff_b_a t : Rat) : Rat := ("
+               + rat_expr(sub[0].args[0], env) + " - " + rat_expr(sub[0].args[1], env) + ")")
+    out.append("def npLerpWhere (t : Rat) : Bool := " + cmp_expr(kws["where"], env))
+    # _quantile: how the pieces are wired
+    fn = top_func(mod, "_quantile")
+    txt = {u(s) for s in stmts_in_order(fn) if isinstance(s, ast.Assign)}
+    wiring = ["virtual_indexes = method_props['get_virtual_index'](values_count, quantiles)",
+              "method_props = _QuantileMethods[method]",
+              "previous_indexes, next_indexes = _get_indexes(arr, virtual_indexes, values_count)",
+              "previous = arr[previous_indexes]",
+              "next = arr[next_indexes]",
+              "gamma = _get_gamma(virtual_indexes, previous_indexes, method_props)",
+              "result = _lerp(previous, next, gamma, out=out)"]
+    for w in wiring:
+        need(w in txt, f"_quantile: statement `{w}`")
+    out.append("/-- statements of `_quantile` found verbatim -/")
+    out.append(f"def npQuantileWiring : Nat := {len(wiring)}")
+    # _median
+    fn = top_func(mod, "_median")
+    ix = assigns(fn, "index")
+    need(len(ix) == 1 and u(ix[0].value) == "part.shape[axis] // 2", "_median: index")
+    odd = [s for s in fn.body if isinstance(s, ast.If) and u(s.test) == "part.shape[axis] % 2 == 1"]
+    need(len(odd) == 1, "_median: parity test")
+    so, se = u(odd[0].body[0].value), u(odd[0].orelse[0].value)
+    need(so == "slice(index, index + 1)" and se == "slice(index - 1, index + 1)",
+         f"_median: slices {so} / {se}")
+    r = assigns(fn, "rout")
+    need(r and u(r[0].value) == "mean(part[indexer], axis=axis, out=out)", "_median: mean of the slice")
+    out.append("/-- `_median`: `index = n // 2`; odd `n`: `mean(part[index:index+1])`, even `n`: "
+               "`mean(part[index-1:index+1])` -/")
+    out.append("def npMedianIndex (n : Nat) : Nat := n / 2")
+    out.append("def npMedianOdd (n : Nat) : Bool := decide (n % 2 = 1)")
+    out.append("def npMedianSliceOdd (index : Nat) : Nat × Nat := (index, index + 1)")
+    out.append("def npMedianSliceEven (index : Nat) : Nat × Nat := (index - 1, index + 1)")
+    out.append("")
+
 def lean_str_list(xs):
     return "[" + ", ".join('"%s"' % x for x in xs) + "]"
 
@@ -411,6 +673,8 @@ def main():
         out.append(f"def {nm}Keywords : List (String × String) := ["
                    + ", ".join('("%s", "%s")' % kv for kv in sorted(d['kw'].items())) + "]")
         out.append("")
+    gen_thresholding(cls, out)
+    gen_numpy(out)
     out.append("end Pyunicorn.Generated.StructC16")
     os.makedirs(os.path.dirname(OUT), exist_ok=True)
     with open(OUT, "w") as f:
